@@ -74,4 +74,52 @@ def decode (bs : List Nat) : Option (List Char) :=
       if r.length < (a :: rest).length then (decode r).map (fun cs => Char.ofNat v :: cs) else none
 termination_by bs.length
 
+/-! ### The same function without the length test at every step (compiled code only)
+
+`decode` as written walks the rest of the list at every character (`r.length < …`, there for the termination
+argument): quadratic, ten seconds on a 64 KiB text.  `decodeFast` runs on fuel computed once; the two are PROVED
+equal and `@[csimp]` makes compiled code (the driver) use the fast one.  Theorems keep talking about `decode`. -/
+
+private theorem decStep_lt' {bs : List Nat} {v : Nat} {r : List Nat} (h : decStep bs = some (v, r)) :
+    r.length < bs.length := by
+  rw [decStep.eq_def] at h
+  split at h
+  · simp only [reduceCtorEq] at h
+  · repeat' split at h
+    all_goals simp only [Option.some.injEq, Prod.mk.injEq, reduceCtorEq] at h
+    all_goals (obtain ⟨-, rfl⟩ := h; simp only [List.length_cons]; omega)
+
+def decodeF : Nat → List Nat → Option (List Char)
+  | _, [] => some []
+  | 0, _ :: _ => none
+  | f + 1, a :: rest =>
+    match decStep (a :: rest) with
+    | none => none
+    | some (v, r) => (decodeF f r).map (fun cs => Char.ofNat v :: cs)
+
+def decodeFast (bs : List Nat) : Option (List Char) := decodeF bs.length bs
+
+theorem decodeF_eq (f : Nat) (bs : List Nat) (h : bs.length ≤ f) : decodeF f bs = decode bs := by
+  induction f generalizing bs with
+  | zero =>
+    cases bs with
+    | nil => rw [decode]; rfl
+    | cons a rest => simp at h
+  | succ f ih =>
+    cases bs with
+    | nil => rw [decode]; rfl
+    | cons a rest =>
+      rw [decode]
+      cases hs : decStep (a :: rest) with
+      | none => simp only [decodeF, hs]
+      | some p =>
+        obtain ⟨v, r⟩ := p
+        have hlt := decStep_lt' hs
+        have hr : r.length ≤ f := by simp only [List.length_cons] at hlt h; omega
+        simp only [decodeF, hs, hlt, ↓reduceIte, ih r hr]
+
+@[csimp] theorem decode_eq_decodeFast : @decode = @decodeFast := by
+  funext bs
+  exact (decodeF_eq bs.length bs (Nat.le_refl _)).symm
+
 end SwimVerif.Utf8
